@@ -153,10 +153,29 @@ func (x *gen) kids(schemaKids []*sg.Node, depth int) []*D {
 						pool := []string{"a", "b", "a·", "·b", "a·b", "·", ""}
 						for _, e := range d.Kids {
 							for _, f := range fields {
-								if leaf := find(e.Kids, f); leaf != nil && len(leaf.Vals) == 1 {
+								// the field may be a descendant path through a container
+								holder := e
+								parts := strings.Split(f, "/")
+								for _, pn := range parts[:len(parts)-1] {
+									next := find(holder.Kids, pn)
+									if next == nil {
+										if !g.Chance(2, 3, "uniqmk") {
+											holder = nil
+											break
+										}
+										next = &D{Name: pn}
+										holder.Kids = append(holder.Kids, next)
+									}
+									holder = next
+								}
+								if holder == nil {
+									continue
+								}
+								ln := parts[len(parts)-1]
+								if leaf := find(holder.Kids, ln); leaf != nil && len(leaf.Vals) == 1 {
 									leaf.Vals[0] = pool[g.Pick(len(pool), "uniqval")]
 								} else if leaf == nil && g.Chance(2, 3, "uniqadd") {
-									e.Kids = append(e.Kids, &D{Name: f, Vals: []string{pool[g.Pick(len(pool), "uniqval2")]}})
+									holder.Kids = append(holder.Kids, &D{Name: ln, Vals: []string{pool[g.Pick(len(pool), "uniqval2")]}})
 								}
 							}
 						}
@@ -172,7 +191,7 @@ func (x *gen) kids(schemaKids []*sg.Node, depth int) []*D {
 }
 
 func genCase(t *rapid.T) Case {
-	g := &sg.G{T: t, Cfg: sg.GenCfg{MaxMods: 2, NoFeatures: true, NoWhenMust: true, NoRpcs: true}}
+	g := &sg.G{T: t, Cfg: sg.GenCfg{MaxMods: 2, NoFeatures: true, NoWhenMust: true, NoRpcs: true, UniqueBias: true}}
 	c := Case{Mods: g.GenSet()}
 	// leafref leaves are validated against the data (not part of this property): turn them into strings
 	var strip func(kids []*sg.Node)
